@@ -256,7 +256,10 @@ def run(prop, tier, cases, run_case, rule, owner, replay=None, nontrivial=None, 
             if l == 1:
                 rep.sample({"event": family.clean_json({k: v for k, v in ev.items() if k != "hints"}), "verdict": [kind, detail]})
     if extra and not replay and not collect:
-        extra(rep, rd)
+        try:
+            extra(rep, rd)
+        except Exception as e:  # noqa: BLE001 - the conformance tier follows the code's internals; when it cannot, that is drift, not a verdict
+            print("SPEC-DRIFT property=%s the algorithm-level conformance run could not follow the code (%s: %s)" % (prop, type(e).__name__, str(e)[:200]), flush=True)
     shutil.rmtree(rd, ignore_errors=True)
     if collect:
         return {"evaluations": n_ev, "nontrivial": nontriv, "traces": len(traces), "verdict_counts": counts}
